@@ -102,14 +102,14 @@ class Grid:
             a uniform grid. Default is 'Spectral'.
 
         """
-        self.M = M # pylint: disable=invalid-name
-        # This number has to be odd
-        self.N = N # pylint: disable=invalid-name
-        self.positionFalloff = positionFalloff
         assert spacing in [
             "Spectral",
             "Uniform",
         ], f"Unknown spacing {spacing}, not 'Spectral' or 'Uniform'"
+        self.M = M # pylint: disable=invalid-name
+        # This number has to be odd
+        self.N = N # pylint: disable=invalid-name
+        self.positionFalloff = positionFalloff
         self.spacing = spacing
         self.momentumFalloffT = momentumFalloffT
 
